@@ -12,7 +12,7 @@ import (
 // Tok is a terminal. Name=="" means a character literal 'Char'.
 type Tok struct {
 	Name string
-	Char byte
+	Char rune
 	Num  int    // explicit number (0 = automatic); ignored for literals
 	Tag  string // "" or union field
 	// Decl says how it is declared: "token" (default), "prec" (only in a precedence
@@ -381,8 +381,8 @@ func (s *Spec) GoText() string {
 
 // ---- the corpus ----
 
-func lit(c byte) Tok              { return Tok{Char: c} }
-func litV(c byte) Tok             { return Tok{Char: c, Tag: "val"} }
+func lit(c rune) Tok              { return Tok{Char: c} }
+func litV(c rune) Tok             { return Tok{Char: c, Tag: "val"} }
 func named(n string, num int) Tok { return Tok{Name: n, Num: num, Tag: "val"} }
 
 func rules(lines ...string) []Rule {
@@ -420,7 +420,7 @@ func Expr(name string, levels []PrecLine, ops []byte, unary bool) *Spec {
 	s := &Spec{Name: name, Tags: []string{"expr", "conflict-resolved"}}
 	s.Toks = append(s.Toks, named("NUM", 300))
 	for _, op := range ops {
-		s.Toks = append(s.Toks, Tok{Char: op, Decl: "prec"})
+		s.Toks = append(s.Toks, Tok{Char: rune(op), Decl: "prec"})
 	}
 	s.Toks = append(s.Toks, lit('('), lit(')'))
 	s.Prec = levels
@@ -529,7 +529,7 @@ func Fixed() []*Spec {
 			rhs += " " + nt
 			if ch == 'O' {
 				tk := byte('f' + i)
-				sp.Toks = append(sp.Toks, litV(tk))
+				sp.Toks = append(sp.Toks, litV(rune(tk)))
 				rest = append(rest, fmt.Sprintf("%s: | '%c'", nt, tk))
 			} else {
 				rest = append(rest, nt+": ")
@@ -626,7 +626,7 @@ func Fixed() []*Spec {
 		letters := []byte{'a', 'b', 'c', 'd', 'e', 'f', 'g', 'h'}
 		var toks []Tok
 		for _, l := range letters {
-			toks = append(toks, lit(l))
+			toks = append(toks, lit(rune(l)))
 		}
 		toks = append(toks, lit(';'))
 		var alts []string
@@ -709,6 +709,11 @@ func Fixed() []*Spec {
 		Prec:  []PrecLine{{"left", []string{"PLUS", "MINUS"}}, {"left", []string{"TIMES"}}},
 		Rules: rules("E: E PLUS E | E MINUS E | E TIMES E | NUM"),
 		NTTag: allVal("E")})
+	// character literals beyond ASCII: numbered by their character code, not by their first byte
+	add(&Spec{Name: "utf8_literals", Tags: []string{"lalr1"},
+		Toks:  []Tok{named("NUM", 440), lit('é'), lit('è')},
+		Rules: rules("S: S 'é' NUM | S 'è' NUM | NUM"),
+		NTTag: allVal("S")})
 	// names that differ only in case; automatic token numbers
 	add(&Spec{Name: "case_names", Tags: []string{"lalr1"},
 		Toks:  []Tok{named("NUM", 0), named("List", 0), lit(',')},
@@ -732,7 +737,7 @@ func Random(seed int64, n int) []*Spec {
 		nr := nt + rng.Intn(5)
 		s := &Spec{Name: fmt.Sprintf("rand_%d_%d", seed, len(out)), Tags: []string{"random"}}
 		for i := 0; i < tt; i++ {
-			s.Toks = append(s.Toks, litV(byte('a'+i)))
+			s.Toks = append(s.Toks, litV(rune('a'+i)))
 		}
 		nts := []string{"S", "A", "B", "C"}[:nt]
 		s.NTTag = allVal(nts...)
@@ -1114,7 +1119,7 @@ func RandomRich(seed int64, n int) []*Spec {
 					t.Num = 500 + 7*named
 				}
 			} else {
-				t = Tok{Char: lits[perm[i]]}
+				t = Tok{Char: rune(lits[perm[i]])}
 			}
 			switch rng.Intn(4) {
 			case 0:
